@@ -160,7 +160,19 @@ func runSession(j sessJob) (o sessObs) {
 		return whole(err)
 	}
 	// piecewise
-	mk()
+	first := 1
+	if strings.HasPrefix(j.Entry, "path-then") {
+		// the declarations as one file through EvalPath, the statements as chunks afterwards
+		decl := "package main\n\n" + strings.Join(j.Items[:j.NDecl], "\n")
+		opts.SourcecodeFilesystem = fstest.MapFS{"main.go": &fstest.MapFile{Data: []byte(decl)}}
+		mk()
+		if _, err := i.EvalPath("main.go"); err != nil {
+			return sessObs{Chunk: 1, What: "error: " + firstLine(err.Error()) + " in the declarations file"}
+		}
+		first = j.NDecl + 1
+	} else {
+		mk()
+	}
 	cut := map[int]bool{}
 	for _, k := range j.Cut {
 		cut[k] = true
@@ -169,14 +181,14 @@ func runSession(j sessJob) (o sessObs) {
 	cut[len(j.Items)] = true
 	var chunk strings.Builder
 	n := 0
-	for k := 1; k <= len(j.Items); k++ {
+	for k := first; k <= len(j.Items); k++ {
 		chunk.WriteString(j.Items[k-1])
 		if !cut[k] {
 			continue
 		}
 		n++
 		var err error
-		if j.Entry == "compile-execute" {
+		if j.Entry == "compile-execute" || j.Entry == "path-then-compile" {
 			var prog *interp.Program
 			if prog, err = i.Compile(chunk.String()); err == nil {
 				_, err = i.Execute(prog)
